@@ -224,14 +224,29 @@ ADD = {
         "again).",
 }
 
+ADD2 = {
+ 'C02': "The ideal-cipher substitution for cfbCipher applies only while Encrypt/Decrypt still are crypto/cipher's CFB stream over the value (callee-set check); a re-implemented cipher mode makes the check inconclusive instead of passing.",
+ 'C05': "vh_C14_redeem (a failed redemption's error text never carries the PKCE verifier: term-walk secrecy obligation).",
+ 'C06': "vh_C06_rel also on 21 concrete parser-confusing targets through net/http's redirect normalisation (path cleaning) and the browser model; vh_C06_chain_encoded (percent-encoded request paths are remembered as sent).",
+ 'C07': "vh_C07_injector_race (no shared mutable state in the header injector across concurrent requests), vh_C17_client_headers.",
+ 'C09': "vh_C11_redis_store (the redis entry carries the lifetime it was given).",
+ 'C10': "vh_C11_redis_store (two replicas over one server: saves and updates are visible to the other replica).",
+ 'C11': "vh_C11_redis_store (what one replica cleared no replica loads, however recently it read it).",
+ 'C12': "vh_C10_manager_history also with a pre-v2 ticket cookie: a peer that reloads under the lock sees the session just saved.",
+ 'C13': "vh_C11_redis_store (every server failure -- down, or never answering a connection check bounded by a deadline -- is an error of the operation, readiness included), vh_C13_ready_sequence (sequences of readiness probes through NewReadynessCheck).",
+ 'C16': "vh_C16_only_configured_header (reverse-proxy mode: requests agreeing on the configured header get the same client address whatever other forwarding headers say).",
+ 'C17': "vh_C17_client_headers (repeated client header lines reach the upstream complete and in order), vh_C17_new_reverse_proxy (newReverseProxy for every passHostHeader setting).",
+ 'C20': "vh_C07_injector_race (one header injector under two concurrent requests).",
+}
+
 
 def main():
     old = json.load(open(os.path.join(V, 'MANIFEST.json')))
     checks = []
     for pid in sorted(P):
         text, note = P[pid]
-        if pid in ADD:
-            text = text + " Added later: " + ADD[pid]
+        if pid in ADD or pid in ADD2:
+            text = text + " Added later: " + (ADD.get(pid, '') + ' ' + ADD2.get(pid, '')).strip()
         checks.append({
             "property_id": pid,
             "quick_cmd": "./check %s --tier quick" % pid,
@@ -252,7 +267,7 @@ def main():
     names = {l.split('\t')[0] for l in out.splitlines() if l.startswith('vh_')}
     import re
     for pid, (text, _) in P.items():
-        text = text + ADD.get(pid, '')
+        text = text + ADD.get(pid, '') + ADD2.get(pid, '')
         for m in re.findall(r'vh_C\d\d_[a-z0-9_]+', text):
             m = m.rstrip('_')
             if not any(n == m or n.startswith(m) for n in names):
